@@ -51,14 +51,26 @@ def sprintf_literal(rel, which):
         raise ValueError("%s: expected exactly two archive_string_sprintf(&state->encoded_buff, ...) calls, found %d" % (rel, len(ms)))
     return ms[which]
 
-def header_prefix(rel):
+def header_format(rel):
+    """(prefix bytes, fixed3): the header is '<prefix>%o %s\\n' (mode printed with one %o) or
+    '<prefix>%o%o%o %s\\n' with the arguments (mode >> 6) & 7, (mode >> 3) & 7, mode & 7"""
     lit = sprintf_literal(rel, 0)
-    if not lit.endswith("%o %s\\n"):
-        raise ValueError("%s: header format %r is not '<prefix>%%o %%s\\n'" % (rel, lit))
-    pre = lit[:-len("%o %s\\n")]
-    if "%" in pre:
-        raise ValueError("%s: unexpected conversion in header prefix %r" % (rel, pre))
-    return c_string_bytes(pre)
+    for tail, fixed3 in (("%o%o%o %s\\n", True), ("%o %s\\n", False)):
+        if lit.endswith(tail):
+            pre = lit[:-len(tail)]
+            if "%" in pre:
+                raise ValueError("%s: unexpected conversion in header prefix %r" % (rel, pre))
+            if fixed3:
+                src = re.sub(r"\s+", "", cdefs.strip_comments(cdefs.read(rel)))
+                want = "(unsignedint)(state->mode>>6)&7,(unsignedint)(state->mode>>3)&7,(unsignedint)state->mode&7,state->name.s)"
+                if want not in src:
+                    raise ValueError("%s: three-digit header format with unexpected arguments" % rel)
+            return c_string_bytes(pre), fixed3
+    raise ValueError("%s: header format %r is not '<prefix>%%o %%s\\n' or '<prefix>%%o%%o%%o %%s\\n'" % (rel, lit))
+
+def has_text(rel, pattern):
+    src = re.sub(r"\s+", " ", cdefs.strip_comments(cdefs.read(rel)))
+    return re.search(pattern, src) is not None
 
 def trailer(rel):
     lit = sprintf_literal(rel, 1)
@@ -99,8 +111,20 @@ def generate():
     nat("b64_LBYTES", cdefs.define_value(WB64, "LBYTES"))
     nat("uu_LBYTES", cdefs.define_value(WUU, "LBYTES"))
     lst("b64_alphabet", table(WB64, r"static\s+const\s+char\s+base64\s*\[\s*\]", 64))
-    lst("b64_header_prefix", header_prefix(WB64))
-    lst("uu_header_prefix", header_prefix(WUU))
+    def B(name, v):
+        L.append("Definition %s : bool := %s." % (name, "true" if v else "false"))
+    p64, f64 = header_format(WB64)
+    puu, fuu = header_format(WUU)
+    lst("b64_header_prefix", p64)
+    lst("uu_header_prefix", puu)
+    # variants of the code the model follows (the proposed repairs, see fixes/C03-*.diff)
+    B("b64_mode_fixed3", f64)
+    B("uu_mode_fixed3", fuu)
+    name_pat = r"if \( ?\*p < 0x20 \|\| \*p > 0x7e ?\) \{ archive_set_error\( ?f->archive, ARCHIVE_ERRNO_MISC, \"name option requires printable ASCII\" ?\); return \( ?ARCHIVE_FAILED ?\);"
+    B("b64_name_printable_only", has_text(WB64, name_pat))
+    B("uu_name_printable_only", has_text(WUU, name_pat))
+    B("rd_uu_bid_empty_fix", has_text(RUU, r"if \( ?l0 == 0 && len - nl == 0 ?\) \{ b \+= nl; len = bid_get_line\( ?filter, &b, &avail, &ravail, &nl, &nbytes_read ?\); if \( ?len - nl == 3 && memcmp\( ?b, \"end\", 3 ?\) == 0 ?\) return \( ?firstline ?\+ ?30 ?\); return \( ?0 ?\); \}"))
+    B("rd_b64_bid_empty_fix", has_text(RUU, r"if \( ?len - nl == 4 && memcmp\( ?b, \"====\", 4 ?\) == 0 ?\) return \( ?firstline ?\+ ?40 ?\);"))
     lst("b64_trailer", trailer(WB64))
     lst("uu_trailer", trailer(WUU))
     for pre, rel in (("b64", WB64), ("uu", WUU)):
